@@ -2,6 +2,7 @@ package c02
 
 import (
 	"fmt"
+	"sort"
 	"strings"
 	"testing"
 
@@ -142,7 +143,16 @@ const sharedMin = 64
 // reencodeKey is the key of a panic of the accessor sweep that is the
 // encoder's refusal of a value decoded from shared sub-tables, "" otherwise.
 func reencodeKey(target string, b []byte, o outcome) string {
-	if o.panic == nil || o.phase != "sweep" || !strings.HasPrefix(target, "gtab.Read/") {
+	if o.panic == nil || o.phase != "sweep" {
+		return ""
+	}
+	if target == "cmap.Decode" {
+		if strings.Contains(o.panic.Key(), "cmap.Format4.Encode:explicit_too_many_mappings") && sharedGlyphIDs(b) >= sharedGlyphIDsMin {
+			return "reencode-shared:" + target
+		}
+		return ""
+	}
+	if !strings.HasPrefix(target, "gtab.Read/") {
 		return ""
 	}
 	if !strings.Contains(o.panic.Key(), "gtab.offs16:explicit") {
@@ -308,4 +318,137 @@ func sharedSeed(t *rapid.T, target string) []byte {
 		}
 	}
 	return cs[rapid.IntRange(0, len(cs)-1).Draw(t, "sharedCase")].b
+}
+
+// The same for cmap format 4: segments may point into one another's part of
+// the glyphIdArray; the decoded mapping has an entry per code, and
+// Format4.Encode refuses ("too many mappings for a format 4 subtable") when
+// the array it would have to write passes 64 KiB.  Key
+// reencode-shared:cmap.Decode; evidence: sharedGlyphIDs, the surplus of
+// glyphIdArray references over distinct slots in one subtable.
+
+func sharedGlyphIDs(b []byte) int {
+	u16 := func(p int) int {
+		if p < 0 || p+2 > len(b) {
+			return -1
+		}
+		return int(b[p])<<8 | int(b[p+1])
+	}
+	best := 0
+	n := u16(2)
+	done := map[int]bool{}
+	for i := 0; i < n; i++ {
+		hi, lo := u16(4+8*i+4), u16(4+8*i+6)
+		if hi < 0 || lo < 0 {
+			break
+		}
+		sp := hi<<16 | lo
+		if done[sp] || u16(sp) != 4 {
+			continue
+		}
+		done[sp] = true
+		segX2 := u16(sp + 6)
+		if segX2 <= 0 {
+			continue
+		}
+		type iv struct{ a, b int }
+		var ivs []iv
+		refs := 0
+		for k := 0; k < segX2/2; k++ {
+			end, start := u16(sp+14+2*k), u16(sp+16+segX2+2*k)
+			irp := sp + 16 + 3*segX2 + 2*k
+			iro := u16(irp)
+			if end < 0 || start < 0 || iro <= 0 || end < start {
+				continue
+			}
+			cnt := end - start + 1
+			refs += cnt
+			ivs = append(ivs, iv{irp + iro, irp + iro + 2*cnt})
+		}
+		sort.Slice(ivs, func(i, j int) bool { return ivs[i].a < ivs[j].a })
+		distinct, to := 0, -1
+		for _, v := range ivs {
+			a := max(v.a, to)
+			if v.b > a {
+				distinct += (v.b - a) / 2
+				to = v.b
+			}
+		}
+		if d := refs - distinct; d > best {
+			best = d
+		}
+	}
+	return best
+}
+
+const sharedGlyphIDsMin = 4096
+
+// sharedGlyphIDArray is a cmap table with one format 4 subtable whose nseg
+// segments of segLen codes (100 unmapped codes between them) all use the
+// same segLen entries of the glyphIdArray, filled with irregular glyph ids.
+func sharedGlyphIDArray(nseg, segLen int) []byte {
+	segs := nseg + 1
+	var s []byte
+	s = be16(s, 4)
+	s = be16(s, 0) // length, below
+	s = be16(s, 0)
+	s = be16(s, 2*segs)
+	s = append(s, 0, 0, 0, 0, 0, 0)
+	for i := 0; i < nseg; i++ {
+		s = be16(s, i*(segLen+100)+segLen-1+32)
+	}
+	s = be16(s, 0xFFFF)
+	s = be16(s, 0)
+	for i := 0; i < nseg; i++ {
+		s = be16(s, i*(segLen+100)+32)
+	}
+	s = be16(s, 0xFFFF)
+	for i := 0; i < nseg; i++ {
+		s = be16(s, 0)
+	}
+	s = be16(s, 1)
+	for i := 0; i < nseg; i++ {
+		s = be16(s, 2*(segs-i)) // idRangeOffset: the start of the array
+	}
+	s = be16(s, 0)
+	for k := 0; k < segLen; k++ {
+		s = be16(s, 1+(k*7919)%60000)
+	}
+	s[2], s[3] = byte(len(s)>>8), byte(len(s))
+	b := []byte{0, 0, 0, 1, 0, 3, 0, 1, 0, 0, 0, 12}
+	return append(b, s...)
+}
+
+func TestC02KnownSharedGlyphIDs(t *testing.T) {
+	tg := targetByName("cmap.Decode")
+	b := sharedGlyphIDArray(10, 4000)
+	o := tg.run(b)
+	switch {
+	case !o.accepted:
+		t.Logf("the %d-byte reproducer is now rejected by the decoder", len(b))
+		stats.CaseIn("known-shared", stats.Hash("cmap4", b), false, nil, "rejected:cmap4")
+	case o.panic == nil:
+		t.Logf("the subtable decoded from the %d-byte reproducer is now re-encoded without a panic", len(b))
+		stats.CaseIn("known-shared", stats.Hash("cmap4", b), false, nil, "encodes:cmap4")
+	default:
+		if reencodeKey("cmap.Decode", b, o) == "" {
+			t.Fatalf("HARNESS: the reproducer is not recognised (surplus %d, panic %s)", sharedGlyphIDs(b), o.panic)
+		}
+		if err := tg.verdict(b, o); err != nil {
+			t.Fatalf("%v", err)
+		}
+		stats.CaseIn("known-shared", stats.Hash("cmap4", b), true, func() string {
+			return fmt.Sprintf("cmap format 4: %d-byte table, %d shared glyphIdArray references: decoded, Encode refused (%s)", len(b), sharedGlyphIDs(b), o.panic)
+		}, "known:cmap4")
+	}
+	// little sharing: encodes
+	b = sharedGlyphIDArray(3, 50)
+	o = tg.run(b)
+	if !o.accepted || reencodeKey("cmap.Decode", b, o) != "" {
+		t.Fatalf("HARNESS: the small shared table is rejected or would be excused (surplus %d)", sharedGlyphIDs(b))
+	}
+	if err := tg.verdict(b, o); err != nil {
+		t.Fatalf("%v", err)
+	}
+	stats.CaseIn("known-shared", stats.Hash("cmap4", b), true, nil, "small-shared-encodes:cmap4")
 }
